@@ -445,6 +445,33 @@ def report_extensions(r, n=60):
 PARSE_MINS = [4, 6, 8, 12, 13, 20]      # third-party minimum lengths, also ones that are not whole words
 
 
+def congruent_lengths(r):
+    """strings longer than 65536 words whose 16-bit length field equals (len/4 - 1) mod 65536"""
+    out = []
+    for lf in (0, 1, 5):
+        for wraps in (1, 2):
+            L = 4 * (lf + 1) + wraps * 262144
+            for kind, pt in (("unknown", 210), ("packet", 210), ("packet", 204), ("app", 204)):
+                b = bytes([0x80, pt]) + struct.pack(">H", lf) + bytes(L - 4)
+                out.append(P(kind, b))
+    return out
+
+
+def midsize_padded(r):
+    """typed packets of 250..300 and 500..1100 bytes with the P bit and a last octet around every
+    value that matters (0, 1, the body size, 249..255)"""
+    out = []
+    for kind, pt, mn in (("app", 204, 12), ("tfb", 205, 12), ("pfb", 206, 12), ("sdes", 202, 4), ("rr", 201, 8), ("sr", 200, 28), ("bye", 203, 4), ("packet", 204, 12), ("packet", 205, 12)):
+        for L in (252, 256, 260, 264, 268, 272, 276, 512, 1024):
+            for last in (0, 1, 4, 8, (L - mn) & 0xff, (L - mn + 1) & 0xff, 248, 249, 252, 253, 255):
+                body = bytearray(r.getrandbits(8) for _ in range(L - 4))
+                if kind in ("tfb", "pfb"): body[:8] = struct.pack(">II", 1, 2)
+                body[-1] = last
+                cnt = {"rr": 0, "sr": 0, "bye": r.choice([0, 1]), "tfb": 1, "pfb": r.choice([1, 2, 3, 4]), "sdes": 1}.get(kind, r.getrandbits(5))
+                out.append(P(kind, bytes([0xa0 | cnt, pt]) + struct.pack(">H", L // 4 - 1) + bytes(body)))
+    return out
+
+
 def custom_kinds():
     return [("custom", pt, mn) for pt in gen.CUSTOM_PTS for mn in PARSE_MINS]
 
@@ -510,6 +537,9 @@ def boundary_cfgs(kind, r, tier):
             out.append({"k": "bye", "padding": p, "sources": [7], "reason": b"ab", "reason_call": "reason"})
         for ns in range(0, 35):
             out.append({"k": "bye", "padding": 0, "sources": list(range(ns)), "reason": None})
+        for txt in (" ", "  ", "\t", "\r\n", "\u00a0\u2003", " a", "a ", "\n", "\0", " \0"):
+            for p_ in (0, 4):
+                out.append({"k": "bye", "padding": p_, "sources": [3], "reason": txt.encode(), "reason_call": r.choice(["reason", "reason_owned"])})
         for rl in (255, 256, 257, 258, 300, 511, 512, 513):
             for ns in (0, 1, 31):
                 out.append({"k": "bye", "padding": r.choice(pads_legal), "sources": list(range(ns)), "reason": gen.r_text(r, rl),
@@ -583,6 +613,12 @@ def boundary_cfgs(kind, r, tier):
         # last item 0..3 bytes from the end, with an empty final item
         for vl in range(0, 8):
             out.append({"k": "sdes", "padding": 0, "chunks": [{"k": "chunk", "ssrc": 9, "items": [{"type": 1, "value": b"v" * vl}, {"type": 2, "value": b""}]}]})
+        # several chunks, each far below the limit, together above it
+        half = [{"type": 1, "value": b"h" * 255} for _ in range(510)]
+        for extra in (0, 1, 2, 3, 4, 5, 6, 60):
+            for p_ in (0, 4):
+                out.append({"k": "sdes", "padding": p_, "_size_only": True, "_big": True, "chunks": [
+                    {"k": "chunk", "ssrc": 1, "items": list(half)}, {"k": "chunk", "ssrc": 2, "items": half + [{"type": 1, "value": b"e" * 250} for _ in range(extra)]}]})
         # total size around the limit: 1028 items of 255 bytes = 264196
         big_items = [{"type": 1, "value": b"z" * 255} for _ in range(1019)]
         for extra in (0, 145, 146, 147, 148, 149, 150, 151, 152, 153, 200):
@@ -604,6 +640,19 @@ def boundary_cfgs(kind, r, tier):
                             "padding": r.choice(pads_legal), "sender": gen.r_u32(r), "media": gen.r_u32(r)})
         for pt in (126, 127, 128, 129, 255):
             out.append({"k": "pfb", "mode": "owned", "fci": {"k": "rpsi", "pt": pt, "data": b"\xff\xff", "overrun": 1}, "padding": 0, "sender": 1, "media": 2})
+        # NACK insertion orders: small sets inside a 40-wide window, every permutation of the adds
+        import itertools as _it
+        for base in (100, 65500):
+            for offs in ((0, 10, -10, 25), (0, -10, 7), (0, 17, 5, 30), (0, 16, 32, 8), (3, 1, 2, 0, 20), (0, 33, 17, 16)):
+                for perm in list(_it.permutations(offs))[:24]:
+                    out.append({"k": "tfb", "mode": "borrowed", "fci": {"k": "nack", "seqs": [(base + o) % 65536 for o in perm]},
+                                "padding": r.choice([0, 4]), "sender": 1, "media": 2})
+        for pid in (0xffee, 0xffef, 0xfff0, 0xfffd, 0xfffe, 0xffff):
+            for extra in ([], [0xffff], [0xffff, 0], [0xffff, 0, 1]):
+                out.append({"k": "tfb", "mode": "owned", "fci": {"k": "nack", "seqs": [pid] + extra}, "padding": 0, "sender": 1, "media": 2})
+        for ents in ([(0, 0)], [(0, 0), (1, 1)], [(1, 1), (0, 0), (2, 2)], [(5, 0), (0, 5)], [(0, 0), (0, 1)]):
+            for p_ in (0, 4):
+                out.append({"k": "pfb", "mode": "borrowed", "fci": {"k": "fir", "entries": ents}, "padding": p_, "sender": 1, "media": 2})
         # NACK shapes
         for base in (0, 1, 65519, 65520, 65534, 65535, 1000):
             for gap in (1, 15, 16, 17, 18):
@@ -656,6 +705,11 @@ def boundary_cfgs(kind, r, tier):
                 {"k": "rr", "ssrc": 1, "padding": 0, "rbs": []}, dict(half), dict(half),
                 {"k": "unknown", "type": 192, "data": bytes(extra), "padding": 0, "count": 1},
                 {"k": "bye", "padding": 0, "sources": [7], "reason": None}]})
+        # long member lists: padding on a member at every position around 64
+        for n in (63, 64, 65, 66, 67, 70, 130):
+            for padpos in sorted({n - 1, 62, 63, 64, 65, n - 2} & set(range(n))):
+                ms = [{"k": "rr", "ssrc": i, "padding": 4 if i == padpos else 0, "rbs": []} for i in range(n)]
+                out.append({"k": "compound", "members": ms})
         out.append({"k": "compound", "members": []})
         out.append({"k": "compound", "members": [{"k": "compound", "members": []}]})
         E = lambda: {"k": "compound", "members": []}
